@@ -173,3 +173,13 @@ def c10_subscription_through_query_entry_point() -> bool:
     execute() raise RuntimeError ("`execute` does not support subscriptions, use the `subscribe` helper") instead of giving an error response;
     the RuntimeError is the documented contract of execute() ("Raises: RuntimeError: on invalid operation"), so the behaviour is recorded, not changed."""
     return ENABLED
+
+
+def c14_hidden_input_field_in_default(hidden_fields, key) -> bool:
+    """KF C14-hidden-input-field-in-default: VisibilitySchemaTransform removes a hidden input field from its input type but not
+    from the default values (of arguments, input fields, directive arguments) that mention it, so resolvers still receive the
+    hidden key while the printed / introspected default has lost it.  Repairing it means rewriting every default whose type
+    reaches the input type at any depth - not a small patch.  Root cause class: a key of a default that names a hidden input field."""
+    if not ENABLED:
+        return False
+    return key in hidden_fields
